@@ -140,6 +140,7 @@ public:
     const Call &apply(const Op &op);
     Result &finish();               // final dumps, destroy_all, config_destroy
     Result &result() { return r_; }
+    void report(const std::string &sig) { viol(sig); } // oracle failures found by code driving the session (feeders)
     htp_connp_t *connp() { return connp_; }
     htp_cfg_t *cfg() { return cfg_; }
     void *user = nullptr;           // for check-specific callbacks
@@ -191,6 +192,7 @@ Result run(const Scenario &s, const Options &o = Options());
 // Applies one op following the hand-over protocol; state is kept in HandOver.
 struct HandOver {
     std::string pending[2]; bool blocked[2] = {false, false}; size_t deferred_ops = 0, reoffers = 0;
+    int stall = 0; // consecutive re-offers that consumed nothing while both directions hold unconsumed bytes (C09 progress rule)
     // returns nullptr when the op was deferred (direction blocked)
     const Call *apply(Session &ss, const Op &op);
 };
